@@ -6,7 +6,7 @@ import ast
 import json
 
 from ..consteval import Evaluator, Unknown
-from ..loader import AnalysisError, Repo, body_nodoc, dotted, norm, walk_no_nested, enclosing, strip_cast
+from ..loader import AnalysisError, Repo, body_nodoc, dotted, norm, qualname, walk_no_nested, enclosing, strip_cast
 from ..report import Report, VERIF
 
 LEVEL = "other"
@@ -221,6 +221,86 @@ def run(repo: Repo, rep: Report, tier: str) -> None:
     rep.rule("none-not-falsy", "Message IDs, Status and Priority are tested with `is None`: 0 is a legal value of each")
     n_t = zero_legal_truthiness(repo, rep, "none-not-falsy", {"MessageID", "MessageIDBeingRespondedTo", "MoveOriginatorMessageID", "Status", "Priority"})
     rep.counters["truthiness tests on zero-legal DIMSE fields"] = n_t
+    check_fresh_message(repo, rep, "fresh-message")
+
+
+def check_fresh_message(repo: Repo, rep: Report, rule: str) -> int:
+    """primitive_to_message() *deletes* the command-set elements whose parameter is None and only visits the
+    elements still present, so it is correct on a freshly constructed message only: on a message that has
+    already carried another primitive, parameters that were absent then stay absent now (ErrorComment /
+    OffendingElement of a later failure response, a data set flag ...). Every object a primitive is converted
+    into must therefore be constructed for that one conversion - a call of the message class in the same
+    function, or in a helper whose every return value is such a call - never an object kept on `self`."""
+    rep.rule(rule, "the message a primitive is converted into is constructed for that conversion (never one kept from an earlier send)")
+    n = 0
+    for mname in ("dimse", "association", "service_class", "dimse_messages"):
+        m = repo.mod(mname)
+        for fn in [f for f in ast.walk(m.tree) if isinstance(f, ast.FunctionDef)]:
+            for c in walk_no_nested(fn):
+                if not (isinstance(c, ast.Call) and isinstance(c.func, ast.Attribute) and c.func.attr == "primitive_to_message"):
+                    continue
+                n += 1
+                fq = f"{mname}.{qualname(fn)}"
+                recv = c.func.value
+                why = _not_fresh(repo, m, fn, recv, 0)
+                rep.check(why is None, rule, fq, enclosing(c, (ast.stmt,)) or c, f"the message `{norm(recv)}` the primitive is converted into {why}: primitive_to_message() removes the elements whose parameter is None and never puts them back, so a response sent through a reused message loses every optional element (ErrorComment, OffendingElement, the sub-operation counters, ...) that an earlier response did not carry", mod=m, node=c)
+    rep.floor("primitive_to_message call sites", n, 1)
+    return n
+
+
+def _is_ctor(e: ast.AST) -> bool:
+    """`Cls()` / `_TABLE[key]()` - a call whose callee is a class name or an entry of a class table"""
+    if not isinstance(e, ast.Call):
+        return False
+    f = e.func
+    if isinstance(f, ast.Subscript) and isinstance(f.value, ast.Name):
+        return True
+    return isinstance(f, ast.Name) and (f.id[:1].isupper() or f.id in ("cast",) and len(e.args) == 2 and _is_ctor(e.args[1]))
+
+
+def _not_fresh(repo: Repo, m, fn: ast.FunctionDef, e: ast.AST, depth: int) -> str | None:
+    """None when `e` (evaluated in fn) is always a freshly constructed object; otherwise the reason"""
+    if _is_ctor(e):
+        return None
+    if isinstance(e, ast.Call) and norm(e.func) == "cast" and len(e.args) == 2:
+        return _not_fresh(repo, m, fn, e.args[1], depth)
+    if isinstance(e, ast.IfExp):
+        return _not_fresh(repo, m, fn, e.body, depth) or _not_fresh(repo, m, fn, e.orelse, depth)
+    if isinstance(e, ast.Call) and isinstance(e.func, ast.Name) and not e.func.id[:1].isupper():
+        # `cls = _TABLE[key]; msg = cls()`
+        cdefs = [a for a in walk_no_nested(fn) if isinstance(a, ast.Assign) and any(norm(t) == e.func.id for t in a.targets)]
+        if cdefs and all(isinstance(a.value, ast.Subscript) and isinstance(a.value.value, ast.Name) for a in cdefs):
+            return None
+    if isinstance(e, ast.Name):
+        defs = [a for a in walk_no_nested(fn) if isinstance(a, (ast.Assign, ast.AnnAssign)) and getattr(a, "value", None) is not None and any(norm(t) == e.id for t in (a.targets if isinstance(a, ast.Assign) else [a.target]))]
+        if not defs:
+            return f"is `{e.id}`, which {fn.name}() does not construct itself"
+        for a in defs:
+            r = _not_fresh(repo, m, fn, a.value, depth)
+            if r is not None:
+                return r
+        return None
+    if isinstance(e, ast.Call) and isinstance(e.func, ast.Attribute) and norm(e.func.value) == "self" and depth < 2:
+        cls = enclosing(fn, (ast.ClassDef,))
+        ci = m.classes.get(cls.name) if cls is not None else None
+        helper = ci.methods.get(e.func.attr) if ci is not None else None
+        if helper is None:
+            return f"comes from `{norm(e.func)}()`, which could not be resolved"
+        rets = [r for r in walk_no_nested(helper) if isinstance(r, ast.Return)]
+        if not rets:
+            return f"comes from `{norm(e.func)}()`, which returns nothing"
+        for r in rets:
+            if r.value is None:
+                return f"comes from `{norm(e.func)}()`, which can return None"
+            why = _not_fresh(repo, m, helper, r.value, depth + 1)
+            if why is not None:
+                return f"comes from `{norm(e.func)}()`, where it {why}"
+        # a constructed object that is also stored on self may come back on a later call only through a
+        # return of that attribute - covered above (an attribute read is not a constructor call)
+        return None
+    if isinstance(e, ast.Attribute):
+        return f"is read from `{norm(e)}` - an object kept from an earlier use"
+    return f"is `{norm(e)[:40]}`, not a constructor call"
 
 
 def _delegate_c15(repo, rep, tier):
